@@ -42,7 +42,10 @@ SINGLE = [f"one-{d}-{s}" for d in _DT for s in _SZ]
 OTHER = ["mix", "deser", "lazy", "big-align", "unnamed", "shared", "subgraph", "init-input", "str-small", "str-big",
          "ext-other", "ext-otherdir", "ext-other-small", "ext-other-touched",
          "ext-dest", "ext-dest-small", "ext-dest-touched",
-         "uninit", "uninit-mix", "uninit-sub"]
+         "uninit", "uninit-mix", "uninit-sub",
+         # subgraph shapes: zero-node branches that return their own initializer, the uninitialized one in the else branch,
+         # two levels deep (If inside an If branch)
+         "subgraph-empty", "subgraph-deep", "uninit-sub-empty", "uninit-sub-else", "uninit-sub-deep", "uninit-sub-deep-empty"]
 MODELS = SINGLE + OTHER
 # thorough tier: every ordered pair of (dtype, size) atoms as two initializers of one model (write order is by size,
 # offsets depend on the neighbour); destination/verbose/path stay at their defaults for these
@@ -206,26 +209,45 @@ def build(mid, root, full_model_path):
         arr = _array("f32", "1K", 2)
         t = ir.Tensor(arr, name="s")
         inits += [(val("s1", t), arr.tobytes()), (val("s2", t), arr.tobytes()), mem("a", "i64", "1K", 1)]
-    elif mid in ("subgraph", "uninit-sub"):
+    elif mid.startswith(("subgraph", "uninit-sub")):
         c, craw = mem("cond", "bool", "scalar")
         inits.append((c, craw))
-        subs = []
-        for label, seed in (("then", 1), ("else", 2)):
-            if mid == "uninit-sub" and label == "then":
+        uninit = mid.startswith("uninit-sub")
+        empty = mid.endswith("empty")
+        deep = "deep" in mid
+        bad_label = "else" if mid == "uninit-sub-else" else "then"
+
+        def branch(label, seed, bad):
+            if bad:
                 sv, sraw = ir.Value(name=f"{label}_w"), None
             else:
                 sv, sraw = mem(f"{label}_w", "f32", "1K", seed)
+            sub_tracked.append((label, sv.name, sv, sraw))
+            if empty:
+                # no node at all: the branch returns its own initializer
+                return ir.Graph([], [sv], nodes=[], initializers=[sv], name=label)
             sn = ir.Node("", "Identity", [sv], num_outputs=1, name=f"{label}_n")
             sn.outputs[0].name = f"{label}_o"
-            sg = ir.Graph([], sn.outputs, nodes=[sn], initializers=[sv], name=label)
-            subs.append(sg)
-            sub_tracked.append((label, sv.name, sv, sraw))
+            return ir.Graph([], sn.outputs, nodes=[sn], initializers=[sv], name=label)
+
+        subs = []
+        for label, seed in (("then", 1), ("else", 2)):
+            bad = uninit and label == bad_label
+            if deep and label == "then":
+                inner = [branch("then_then", 5, bad), branch("then_else", 6, False)]
+                inn = ir.Node("", "If", [c], attributes=[ir.AttrGraph("then_branch", inner[0]),
+                                                         ir.AttrGraph("else_branch", inner[1])], num_outputs=1,
+                              name="if_inner")
+                inn.outputs[0].name = "then_z"
+                subs.append(ir.Graph([], inn.outputs, nodes=[inn], name=label))
+            else:
+                subs.append(branch(label, seed, bad))
         ifn = ir.Node("", "If", [c], attributes=[ir.AttrGraph("then_branch", subs[0]),
                                                  ir.AttrGraph("else_branch", subs[1])], num_outputs=1, name="if")
         ifn.outputs[0].name = "z"
         nodes.append(ifn)
         inits.append(mem("a", "i64", "1K", 3))
-        if mid == "uninit-sub":
+        if uninit:
             b.expect_refusal = "uninit"
     elif mid == "init-input":
         v, raw = mem("p", "f32", "1K", 4)
